@@ -589,6 +589,160 @@ def gen_limits():
     out.append('Definition limit_step_generator_ok : bool := %s.' % ('true' if 'step_nom = None if step is None else 1' in sg and 'return CStepGenerator(base_step=step, step_nom=step_nom, **options)' in sg else 'false'))
     return '\n'.join(out) + '\n'
 
+def _norm(f):
+    """source of a function without its docstring and comments (ast.unparse of the body)"""
+    body = [st for st in f.body if not (isinstance(st, ast.Expr) and isinstance(st.value, ast.Constant) and isinstance(st.value.value, str))]
+    return '\n'.join(ast.unparse(st) for st in body)
+
+CHECK_CONVERGENCE_BODY = """if self._direction_changes > 1 or self._degenerate:
+    self._num_changes += 1
+    if self._num_changes >= 1 + self.num_extrap:
+        return (True, r)
+if not self._degenerate:
+    m1, m2 = self._get_m1_m2(bn, m)
+    check_degenerate = i > self.min_iter
+    self._degenerate, needs_smaller = _check_fft(m1, m2, check_degenerate)
+    needs_smaller = needs_smaller or _poor_convergence(z0, r, self.fun, bn, self._mvec)
+if self._degenerate:
+    needs_smaller = i % 2 == 0
+if self._previous_direction is not None and needs_smaller != self._previous_direction:
+    self._direction_changes += 1
+if self._direction_changes > 0:
+    self._step_ratio = np.sqrt(self._step_ratio)
+if needs_smaller:
+    r /= self._step_ratio
+else:
+    r *= self._step_ratio
+self._previous_direction = needs_smaller
+return (False, r)"""
+CALL_BODY = """m, mvec = self._initialize()
+rs = []
+bs = []
+i = 0
+r = self.r
+fun = self.fun
+for i in range(self.max_iter):
+    bn = np.fft.fft(fun(_circle(z0, r, m))) / m
+    bs.append(bn * np.power(r, -mvec))
+    rs.append(r)
+    converged, r = self._check_convergence(i, z0, r, m, bn)
+    if converged:
+        break
+coefs, errors = _get_best_taylor_coefficients(bs, rs, m, lambda: self._get_max_m1m2(bn, m))
+if self.full_output:
+    failed = not converged
+    info = _INFO(errors, self._degenerate, final_radius=r, function_count=i * m, iterations=i, failed=failed)
+    return (coefs, info)
+return coefs"""
+EXTRAPOLATE_BODY = """nk = len(rs)
+extrap0 = []
+extrap = []
+for k in range(1, nk):
+    extrap0.append(richardson(bs, k=k, c=1.0 - (rs[k - 1] / rs[k]) ** m))
+for k in range(1, nk - 1):
+    extrap.append(richardson(extrap0, k=k, c=1.0 - (rs[k - 1] / rs[k + 1]) ** m))
+return extrap"""
+BEST_BODY = """extrap = _extrapolate(bs, rs, m)
+mvec = np.arange(m)
+if len(extrap) > 2:
+    all_coefs, all_errors = dea3(extrap[:-2], extrap[1:-1], extrap[2:])
+    floors = [EPS * np.max(np.abs(b * np.power(r, mvec))) / np.power(r, mvec) for b, r in zip(bs, rs)]
+    all_errors = all_errors + np.max([floors[j:len(floors) - 4 + j] for j in range(5)], axis=0)
+    steps = np.atleast_1d(rs[4:])[:, None] * mvec
+    coefs, info = _Limit._get_best_estimate(all_coefs, all_errors, steps, (m,))
+    errors = info.error_estimate
+else:
+    errors = EPS / np.power(rs[2], mvec) * max_m1m2()
+    coefs = extrap[-1]
+return (coefs, errors)"""
+DERIVATIVE_BODY = """result = taylor(fun, z0, n=n, **kwds)
+m = _num_taylor_coefficients(n)
+fact = factorial(np.arange(m))
+if kwds.get('full_output'):
+    coefs, info_ = result
+    info = _INFO(info_.error_estimate * fact, *info_[1:])
+    return (coefs * fact, info)
+return result * fact"""
+
+def gen_taylor():
+    """fornberg.py Taylor machinery (C17): the number of coefficients as an integer function, constants, defaults and
+    the (normalised) bodies of the functions that Model/Taylor.v models by hand."""
+    import math
+    from fractions import Fraction
+    out = ['(* ---- fornberg.py: Taylor (C17) ---- *)']
+    fb = ast.parse(open(SRC + 'fornberg.py').read().replace('\r\n', '\n'))
+    # _get_logn(n): 0 if n == 1 else int(log2(n - 1) - log2(3)) clipped at 0  ==  floor(log2((n - 1) / 3)) clipped at 0
+    gl = get_func(fb, '_get_logn')
+    body = [st for st in gl.body if not (isinstance(st, ast.Expr) and isinstance(st.value, ast.Constant))]
+    ok = (len(body) == 2 and isinstance(body[0], ast.If) and ast.unparse(body[0].test) == 'n == 1' and ast.unparse(body[0].body[0]) == 'return 0' and not body[0].orelse
+          and isinstance(body[1], ast.Return))
+    const = None
+    if ok:
+        e = body[1].value   # np.int_(np.log2(n - 1) - C).clip(min=0)
+        ok = (isinstance(e, ast.Call) and isinstance(e.func, ast.Attribute) and e.func.attr == 'clip' and [ (k.arg, ast.unparse(k.value)) for k in e.keywords] == [('min', '0')]
+              and isinstance(e.func.value, ast.Call) and ast.unparse(e.func.value.func) == 'np.int_' and isinstance(e.func.value.args[0], ast.BinOp)
+              and isinstance(e.func.value.args[0].op, ast.Sub) and ast.unparse(e.func.value.args[0].left) == 'np.log2(n - 1)' and isinstance(e.func.value.args[0].right, ast.Constant))
+        if ok: const = e.func.value.args[0].right.value
+    if not ok or not isinstance(const, float) or abs(const - math.log2(3)) > 4e-16:
+        raise Unsupported('_get_logn: expected `if n == 1: return 0` / `return np.int_(np.log2(n - 1) - log2(3)).clip(min=0)`, found `%s`' % _norm(gl))
+    out.append('Definition get_logn (n : Z) : Z := if n =? 1 then 0 else Z.max 0 (if (n - 1) <? 3 then 0 else Z.log2 ((n - 1) / 3)).')
+    nt = get_func(fb, '_num_taylor_coefficients')
+    body = [st for st in nt.body if not (isinstance(st, ast.Expr) and isinstance(st.value, ast.Constant))]
+    src = [ast.unparse(st) for st in body]
+    import re
+    ok = len(src) == 5 and src[2] == 'log2n = _get_logn(n - correction)' and src[4] == 'return m'
+    m0 = re.match(r"_assert\(n < (\d+), ", src[0]) if ok else None
+    m1 = re.match(r"correction = np\.array\(\[([0-9, ]+)\]\)\[_get_logn\(n\)\]$", src[1]) if ok else None
+    m3 = re.match(r"m = (\d+) \*\* \(log2n \+ (\d+)\)$", src[3]) if ok else None
+    if not (m0 and m1 and m3): raise Unsupported('_num_taylor_coefficients: unexpected body `%s`' % '; '.join(src))
+    out.append('Definition taylor_correction_table : list Z := [%s].' % '; '.join(t.strip() for t in m1.group(1).split(',')))
+    out.append('Definition taylor_n_limit : Z := %s.' % m0.group(1))
+    out.append('Definition num_taylor_coefficients (n : Z) : Z :=\n  if n <? taylor_n_limit then let correction := nth (Z.to_nat (get_logn n)) taylor_correction_table 0 in\n'
+               '    let log2n := get_logn (n - correction) in %s ^ (log2n + %s) else (-1).' % (m3.group(1), m3.group(2)))
+    # constants of _check_fft and _poor_convergence
+    cf = _norm(get_func(fb, '_check_fft'))
+    want = ('degenerate = check_degenerate and (m1 < m2 * 1e-08 or m2 < m1 * 1e-08)\nneeds_smaller = np.isnan(m1) or np.isnan(m2) or m1 < m2\nreturn (degenerate, needs_smaller)')
+    out.append('Definition check_fft_shape_ok : bool := %s.' % ('true' if cf == want else 'false'))
+    pc = _norm(get_func(fb, '_poor_convergence'))
+    out.append('Definition poor_convergence_shape_ok : bool := %s.' % ('true' if ('check_points = (-0.4 + 0.3j, 0.7 + 0.2j, 0.02 - 0.06j)' in pc and 'return max_abs_error > 0.001 * max_f_value' in pc
+               and 'comp = np.sum(bn * np.power(check_point, mvec))' in pc and 'diffs.append(comp - ftest)' in pc) else 'false'))
+    T = get_class(fb, 'Taylor')
+    out.append('Definition check_convergence_shape_ok : bool := %s.' % ('true' if _norm(get_func(T, '_check_convergence')) == CHECK_CONVERGENCE_BODY else 'false'))
+    out.append('Definition taylor_call_shape_ok : bool := %s.' % ('true' if _norm(get_func(T, '__call__')) == CALL_BODY else 'false'))
+    out.append('Definition taylor_extrapolate_shape_ok : bool := %s.' % ('true' if _norm(get_func(fb, '_extrapolate')) == EXTRAPOLATE_BODY
+               and _norm(get_func(fb, 'richardson')) == 'if c is None:\n    c = richardson_parameter(vals, k)\nreturn vals[k] - (vals[k] - vals[k - 1]) / c' else 'false'))
+    out.append('Definition taylor_best_shape_ok : bool := %s.' % ('true' if _norm(get_func(fb, '_get_best_taylor_coefficients')) == BEST_BODY else 'false'))
+    out.append('Definition derivative_scales_values_and_errors : bool := %s.' % ('true' if _norm(get_func(fb, 'derivative')) == DERIVATIVE_BODY else 'false'))
+    init = _norm(get_func(T, '_initialize'))
+    out.append('Definition taylor_initialize_resets_state : bool := %s.' % ('true' if all(t in init for t in (
+        'm = _num_taylor_coefficients(self.n)', 'self._step_ratio = self.step_ratio', 'self._direction_changes = 0', 'self._previous_direction = None',
+        'self._degenerate = self._failed = False', 'self._num_changes = 0', 'self._crat = m * np.exp(np.log(0.0001) / (m - 1)) ** self._mvec')) else 'false'))
+    m12 = _norm(get_func(T, '_get_m1_m2'))
+    out.append('Definition taylor_m1_m2_shape_ok : bool := %s.' % ('true' if m12 == 'bnc = bn / self._crat\nm1 = np.max(np.abs(bnc[:m // 2]))\nm2 = np.max(np.abs(bnc[m // 2:]))\nreturn (m1, m2)' else 'false'))
+    ci = _norm(get_func(fb, '_circle'))
+    out.append('Definition circle_shape_ok : bool := %s.' % ('true' if ci == 'theta = np.linspace(0.0, 2.0 * np.pi, num=m, endpoint=False)\nreturn z + r * np.exp(theta * 1j)' else 'false'))
+    # constructor defaults
+    ini = get_func(T, '__init__')
+    dflt = dict(zip([a.arg for a in ini.args.args][-len(ini.args.defaults):], [ast.unparse(d) for d in ini.args.defaults]))
+    isrc = _norm(ini)
+    for k in ('r', 'step_ratio'):
+        try: fr = Fraction(dflt[k])
+        except Exception: raise Unsupported('Taylor.__init__: default of %s is not a decimal literal' % k)
+        out.append('Definition taylor_default_%s : Q := (%d # %d).' % (k, fr.numerator, fr.denominator))
+    try: ne = int(dflt['num_extrap']); n0 = int(dflt['n'])
+    except Exception: raise Unsupported('Taylor.__init__: defaults of n / num_extrap are not integer literals')
+    out.append('Definition taylor_default_num_extrap : Z := %d.' % ne)
+    mi = re.search(r"self\.max_iter = kwds\.pop\('max_iter', (\d+)\)", isrc)
+    if not mi: raise Unsupported('Taylor.__init__: max_iter default not found')
+    out.append('Definition taylor_default_max_iter : Z := %s.' % mi.group(1))
+    out.append('Definition taylor_default_min_iter (max_iter : Z) : Z := %s.' % ('max_iter / 2' if "self.min_iter = kwds.pop('min_iter', self.max_iter // 2)" in isrc else '(-1)'))
+    tf = get_func(fb, 'taylor')
+    tsrc = _norm(tf)
+    d2 = dict(zip([a.arg for a in tf.args.args][-len(tf.args.defaults):], [ast.unparse(d) for d in tf.args.defaults]))
+    same = all(d2.get(k) == dflt.get(k) for k in ('n', 'r', 'num_extrap', 'step_ratio'))
+    out.append('Definition taylor_function_is_class_call : bool := %s.' % ('true' if same and tsrc == 'return Taylor(fun, n=n, r=r, num_extrap=num_extrap, step_ratio=step_ratio, **kwds)(z0)' else 'false'))
+    return '\n'.join(out) + '\n'
+
 def float_const_Q(node):
     """decimal literal -> exact rational text"""
     from fractions import Fraction
@@ -699,7 +853,8 @@ Open Scope Z_scope.
 def outputs():
     """file name (under coq/Gen) -> text.  Separate files so that a change in one area does not rebuild the others."""
     return {'Spec.v': main(), 'Guards.v': GUARDS_HEADER + gen_guards(), 'Scipy.v': GUARDS_HEADER + gen_scipy(),
-            'Limits.v': LIMITS_HEADER + gen_limits()}
+            'Limits.v': LIMITS_HEADER + gen_limits(),
+            'Taylor.v': LIMITS_HEADER + gen_taylor()}
 def write(out_dir=os.path.dirname(OUT)):
     changed = False
     os.makedirs(out_dir, exist_ok=True)
